@@ -117,6 +117,7 @@ class Region:
     def __init__(self, name, base, size, r=True, w=False, kind="data"):
         self.name, self.base, self.size, self.r, self.w, self.kind = name, base, size, r, w, kind
         self.loads = self.stores = 0
+        self.lazy = None   # optional callable(addr) -> byte value for regions too large to materialise
 
     def __repr__(self):
         return "<%s %x+%d %s%s>" % (self.name, self.base, self.size, "r" if self.r else "-", "w" if self.w else "-")
@@ -187,6 +188,9 @@ class Memory:
                 out.append(0)
                 continue
             v = self.b.get(addr + i)
+            if v is None and reg.lazy is not None:
+                v = reg.lazy(addr + i)
+                self.b[addr + i] = v
             if v is None:
                 raise Violation("uninit-read", "read of never-written byte at 0x%x (%s)" % (addr + i, reg.name), insn)
             out.append(v)
